@@ -48,14 +48,15 @@ def run(chk):
     from ..report import Check
 
     sub = Check("C03", prog, chk.tier)
-    c02.r6_append_only(sub, put, wh, mapb)
+    chk.call(c02.r6_append_only, sub, put, wh, mapb)
     for o in sub.obligations:
         o = dict(o)
         o["rule"] = "C03.R1"
         chk.obligations.append(o)
-    guard = r2_complete_records(chk, mapb)
-    r3_eof(chk, mapb, guard)
-    r4_torn_tail(chk, mapb, put)
+    guard = chk.call(r2_complete_records, chk, mapb)
+    if guard is not chk.REFUSED:
+        chk.call(r3_eof, chk, mapb, guard)
+    chk.call(r4_torn_tail, chk, mapb, put)
 
 
 def _scan_loop(mapb):
